@@ -28,7 +28,7 @@ fn dispatch<P: Property>(p: &P, env: &Env, args: &Args) -> i32 {
     if let Some((sub, idx)) = &args.run {
         return run_single(p, env, sub, *idx);
     }
-    let known = match load_known(std::path::Path::new("/verif/known_findings.json")) {
+    let known = match load_known(&root_dir().join("known_findings.json")) {
         Ok(k) => k,
         Err(e) => {
             eprintln!("qsim: {e}");
